@@ -93,6 +93,19 @@ def run(ctx):
                       {"kind": "history", "text": text, "expected": want, "leak": is_leak},
                       lambda rp: "F-c04-forinit-leak" if rp.get("leak") else None)
     ctx.count(len(fcases), nontrivial_keys=fkeys)
+    # C11 6.7.6.3p11: in a parameter declaration an identifier that can be a typedef name or a parameter
+    # name is a typedef name - the parameter is unnamed and the name stays a type in the body; a plain
+    # declarator of that name is a parameter and hides the typedef
+    TYPE, OBJ = "Decl Cast UnaryOp:Typename", "BinaryOp FuncCall UnaryOp:ID"
+    amb = [("int (T)", TYPE), ("int *(T)", TYPE), ("int (*(T))", TYPE), ("int (* const (T))", TYPE), ("int (**(T))", TYPE),
+           ("int (T), int n", TYPE), ("char c, int (*(T))", TYPE),
+           ("int T", OBJ), ("int *T", OBJ), ("int T[3]", OBJ), ("int n, int * const T", OBJ)]
+    acases = [("typedef int T; int xq; void f(%s) { T * pq1; (T)(xq); sizeof(T); }" % p, want) for p, want in amb]
+    agot = pmap(probe_classes, [c[0] for c in acases])
+    for (text, want), g in zip(acases, agot):
+        if g != want:
+            ctx.violation("typedef name or parameter name? got [%s] expected [%s] on %r" % (g[:120], want, text), {"kind": "history", "text": text, "expected": want})
+    ctx.count(len(acases), nontrivial_n=len(acases))
     # the model agrees with the real parser on every one of them (AST level)
     if ctx.model_available:
         from ..pyparse import py_parse_nocoord, norm_model_parse
